@@ -37,6 +37,18 @@ def showOptB (l : List (Option Bool)) : String :=
 structure St where
   main : Cat Nat
   parts : List (Cat Nat)
+  /-- float alphabet (`seqf`): codes are decoded by `FV.ofCode` (even = number, odd = NaN object) and
+      the value-matching operations are the NaN-aware mirrors of Model Part 4 -/
+  nanAware : Bool := false
+
+/-- the code stands for a NaN object -/
+def nanCode (n : Nat) : Bool := (FV.ofCode n).isNaN
+
+def cmpOpOf (op : String) : Option CmpOp :=
+  match op with
+  | "eq" => some .eq | "ne" => some .ne | "lt" => some .lt | "gt" => some .gt
+  | "le" => some .le | "ge" => some .ge
+  | _ => none
 
 def showSt (s : St) : String :=
   "#".intercalate (showCat s.main :: s.parts.map showCat)
@@ -78,6 +90,13 @@ def applyOp (st : St) (op : String) : St × String :=
   | ["cmp", o, v] =>
     match v.toNat? with
     | some vv =>
+      if st.nanAware then
+        -- mirror (wrapper operators over the unique values) / spec (IEEE relation on the per-dump list)
+        match cmpOpOf o with
+        | some op => (st, showOptB (st.main.cmpPerDump (fun x => FV.cmp op (FV.ofCode x) (FV.ofCode vv))) ++ "/" ++
+            showOptB (specCmp (st.main.perDump.map (fun o => o.map FV.ofCode)) op (FV.ofCode vv)))
+        | none => bad
+      else
       match cmpFn o vv with
       | some f => (st, showOptB (st.main.cmpPerDump f))
       | none => bad
@@ -85,11 +104,11 @@ def applyOp (st : St) (op : String) : St × String :=
   | ["perdump"] => (st, showOpt st.main.perDump)
   | ["add", e, v] =>
     match e.toNat?, (if v = "_" then some none else (v.toNat?).map some) with
-    | some e, some v => upd (st.main.add e v)
+    | some e, some v => upd (if st.nanAware then st.main.addN nanCode e v else st.main.add e v)
     | _, _ => bad
   | ["remove", v] =>
     match v.toNat? with
-    | some v => upd (st.main.remove v)
+    | some v => upd (if st.nanAware then st.main.removeN nanCode v else st.main.remove v)
     | none => bad
   | ["addun", segs, dist] =>
     match natList segs, dist.toNat? with
@@ -106,26 +125,30 @@ def applyOp (st : St) (op : String) : St × String :=
     | none => bad
   | ["padd", k, e, v] =>
     match k.toNat?, e.toNat?, (if v = "_" then some none else (v.toNat?).map some) with
-    | some k, some e, some v => updParts (modifyPart st.parts k (fun c => c.add e v))
+    | some k, some e, some v =>
+      updParts (modifyPart st.parts k (fun c => if st.nanAware then c.addN nanCode e v else c.add e v))
     | _, _, _ => bad
   | ["premove", k, v] =>
     match k.toNat?, v.toNat? with
-    | some k, some v => updParts (modifyPart st.parts k (fun c => c.remove v))
+    | some k, some v =>
+      updParts (modifyPart st.parts k (fun c => if st.nanAware then c.removeN nanCode v else c.remove v))
     | _, _ => bad
   | ["prr", k] =>
     match k.toNat? with
     | some k => updParts (modifyPart st.parts k (fun c => c.removeRepeats))
     | none => bad
   | ["concat", rep] =>
-    match concatenate st.parts (rep = "1") with
-    | .ok c => let s' : St := { main := c, parts := [] }; (s', showSt s')
+    match (if st.nanAware then concatenateN nanCode st.parts (rep = "1") else concatenate st.parts (rep = "1")) with
+    | .ok c => let s' : St := { st with main := c, parts := [] }; (s', showSt s')
     | .error e => (st, showErr e)
   | ["dup"] => let s' := { st with parts := [st.main, st.main] }; (s', showSt s')
   | _ => bad
 
 /-- requests:
     `new <values> <events>`                       -> uniq|idx|ev of `CategoricalData(values, events)`
-    `seq <uniq|idx|ev> :: op :: op …`             -> reply per op, joined by ` :: ` -/
+    `seq <uniq|idx|ev> :: op :: op …`             -> reply per op, joined by ` :: `
+    `seqf <uniq|idx|ev> :: op :: op …`            -> the same for the float alphabet with NaN (codes: even =
+                                                     number, odd = NaN object); `cmp` replies `mirror/spec` -/
 def step (line : String) : String :=
   match line.splitOn " :: " with
   | hd :: ops =>
@@ -134,12 +157,13 @@ def step (line : String) : String :=
       match natList vals, natList evs with
       | some v, some e => showCat (Cat.new v e)
       | _, _ => "bad-op"
-    | ["seq", cat] =>
+    | [mode, cat] =>
+      if mode ≠ "seq" ∧ mode ≠ "seqf" then "bad-op" else
       match parseCat cat with
       | some c =>
         let r := ops.foldl (fun (acc : St × List String) op =>
           let (s', rep) := applyOp acc.1 op
-          (s', acc.2 ++ [rep])) (({ main := c, parts := [] } : St), [])
+          (s', acc.2 ++ [rep])) (({ main := c, parts := [], nanAware := mode = "seqf" } : St), [])
         " :: ".intercalate r.2
       | none => "bad-op"
     | _ => "bad-op"
